@@ -421,6 +421,110 @@ fn check_c07(st: &mut Stats, line: &Value, dump: &mut Option<(std::fs::File, std
     d
 }
 
+/// Beyond the small files TLC encodes: sections far above 65,535 bytes, a term with 300 direct parents, a gene with 400 and
+/// a disease with 500 direct terms, a 255-byte gene name, a 70,000-byte disease name.  The oracle is the harness encoder (bound
+/// to the TLA+ encoder byte for byte on every small file of this run) and the ontology the Builder makes of the same facts.
+pub fn big_binary_case(st: &mut Stats, prop: &str) {
+    st.cases += 1;
+    st.nontrivial += 1;
+    let mut scn = Scenario::default();
+    scn.version = (2025, 11, 30);
+    scn.terms.push(TermSpec { id: 1, name: "All".into(), obsolete: false, repl: None });
+    scn.terms.push(TermSpec { id: 118, name: "Phenotypic abnormality".into(), obsolete: false, repl: None });
+    scn.edges.push((1, 118));
+    let n = 5_000u32;
+    let id_of = |i: u32| 1_000 + i * 13;
+    for i in 0..n {
+        scn.terms.push(TermSpec { id: id_of(i), name: format!("Term number {i} {}", "x".repeat((i % 40) as usize)), obsolete: false, repl: None });
+        scn.edges.push((if i < 400 { 118 } else { id_of(i % 400) }, id_of(i)));
+    }
+    for j in 0..300u32 {
+        scn.edges.push((id_of(j), id_of(n - 1))); // the last term has 300 (+1) direct parents
+    }
+    let long_gene = "G".repeat(255);
+    let huge = "ü".repeat(35_000); // 70,000 bytes
+    for j in 0..400u32 {
+        scn.facts.push(Fact { kind: Kind::Gene, x: 77, name: long_gene.clone(), term: Some(id_of(j * 7)) });
+    }
+    for j in 0..500u32 {
+        scn.facts.push(Fact { kind: Kind::Omim, x: 600_001, name: huge.clone(), term: Some(id_of(j * 3 + 1)) });
+    }
+    for j in 0..40u32 {
+        scn.facts.push(Fact { kind: Kind::Orpha, x: 600_001, name: format!("orpha {}", "y".repeat(300)), term: Some(id_of(j * 11 + 2)) });
+    }
+    scn.facts.push(Fact { kind: Kind::Gene, x: 78, name: "lonely".into(), term: None });
+    let mut d: Vec<String> = vec![];
+    let r = catch(|| {
+        let mut d: Vec<String> = vec![];
+        let built = via_builder(&scn, EdgeOrder::AsGiven, false, true);
+        let src = match built {
+            Ok(s) => s,
+            Err(e) => return vec![format!("big source cannot be built: {e}")],
+        };
+        let want = observe(&src);
+        if prop == "C08" {
+            for v in 1..=3u8 {
+                let bytes = enc::encode(&enc::abstract_of_ordered(&scn, false), v);
+                match from_bytes(&bytes) {
+                    Ok(ont) => {
+                        let mut w = observe(&src);
+                        if v < 3 {
+                            w.recs[2].clear();
+                            for t in w.terms.values_mut() {
+                                t.ann[2].clear();
+                            }
+                        }
+                        for x in observe_diff(&w, &observe(&ont)).into_iter().take(2) {
+                            d.push(format!("big v{v} file ({} bytes) decodes to another ontology than the Builder makes of the same facts: {}", bytes.len(), x.chars().take(400).collect::<String>()));
+                        }
+                    }
+                    Err(e) => d.push(format!("valid big v{v} file ({} bytes) rejected: {e}", bytes.len())),
+                }
+                for cut in (1..bytes.len()).step_by(bytes.len() / 23 + 1).chain([bytes.len() - 1, bytes.len() - 4]) {
+                    if let Some(how) = accepted(&bytes[..cut]) {
+                        d.push(format!("prefix of length {cut} of a {}-byte v{v} file {how}", bytes.len()));
+                        break;
+                    }
+                }
+            }
+        } else {
+            let bytes = src.as_bytes();
+            match (split_records(&bytes), split_records(&enc::encode(&enc::abstract_of_ordered(&scn, true), 3))) {     // canonical: id lists ascending, as the crate's groups are
+                (Ok((h1, s1)), Ok((h2, s2))) => {
+                    if h1 != h2 {
+                        d.push(format!("as_bytes header {:?}, expected {:?}", h1, h2));
+                    }
+                    for (i, (a, b)) in s1.iter().zip(s2.iter()).enumerate() {
+                        if a != b {
+                            d.push(format!("as_bytes of the big ontology: section {i} holds {} records, the independent encoder {} (or their bytes differ)", a.len(), b.len()));
+                        }
+                    }
+                }
+                (Err(e), _) => d.push(format!("as_bytes of the big ontology is not a well formed v3 file: {e}")),
+                (_, Err(e)) => d.push(format!("harness encoder: {e}")),
+            }
+            match from_bytes(&bytes) {
+                Ok(re) => {
+                    for x in observe_diff(&want, &observe(&re)).into_iter().take(2) {
+                        d.push(format!("big ontology ({} bytes): reloaded ontology differs from the serialised one: {}", bytes.len(), x.chars().take(400).collect::<String>()));
+                    }
+                }
+                Err(e) => d.push(format!("from_bytes(as_bytes()) of the big ontology fails: {e}")),
+            }
+        }
+        d
+    });
+    st.evaluations += 4;
+    match r {
+        Ok(x) => d.extend(x),
+        Err(p) => d.push(format!("big binary case panicked: {p}")),
+    }
+    if !d.is_empty() {
+        d.truncate(6);
+        st.violations.push(Violation { property: prop.into(), what: d[0].clone(), replay: json!({"cmd": "replay-binary", "property": prop, "big_binary": true, "diffs": d}) });
+    }
+}
+
 pub fn replay_line(st: &mut Stats, prop: &str, idx: usize, line: &Value, deep: bool, dump: &mut Option<(std::fs::File, std::fs::File)>) {
     st.cases += 1;
     let mut diffs = if prop == "C08" { check_c08(st, line, deep) } else { check_c07(st, line, dump) };
@@ -458,6 +562,9 @@ pub fn run(args: &Args) {
     for (i, l) in lines.iter().enumerate() {
         guard_case(&mut st, &prop, "replay-binary", l, |st| replay_line(st, &prop, i, l, deep, &mut dump));
     }
+    if shard.0 == shard.1 / 2 {
+        big_binary_case(&mut st, &prop);
+    }
     finish(st, args.req("out"), args.req("replay-dir"), json!({"lines": lines.len()}));
 }
 
@@ -465,7 +572,11 @@ pub fn replay_one(v: &Value) -> bool {
     silence_panics();
     let mut st = Stats::default();
     let prop = v["property"].as_str().unwrap_or("C08").to_string();
-    guard_case(&mut st, &prop, "replay-binary", &v["line"], |st| replay_line(st, &prop, 0, &v["line"], true, &mut None));
+    if v.get("big_binary").is_some() {
+        big_binary_case(&mut st, &prop);
+    } else {
+        guard_case(&mut st, &prop, "replay-binary", &v["line"], |st| replay_line(st, &prop, 0, &v["line"], true, &mut None));
+    }
     for x in &st.violations {
         println!("reproduced: {}", x.what);
         if let Some(d) = x.replay["diffs"].as_array() {
